@@ -155,6 +155,49 @@ fn tree_sx(v: &serde_json::Value) -> Sx {
     }
 }
 
+/// the source/selector objects below a value, as (source, start, end)
+fn json_targets(v: &serde_json::Value, out: &mut Vec<Sx>) {
+    use serde_json::Value as V;
+    match v {
+        V::Object(m) => {
+            if let (Some(V::String(src)), Some(V::Object(sm))) = (m.get("source"), m.get("selector")) {
+                if let (Some(st), Some(en)) = (sm.get("start"), sm.get("end")) {
+                    out.push(l(vec![text(src), tree_sx(st), tree_sx(en)]));
+                }
+                return;
+            }
+            // at most one member of an exported object holds targets, so the order of members does not matter
+            for (_, x) in m.iter() {
+                json_targets(x, out);
+            }
+        }
+        V::Array(a) => {
+            for x in a {
+                json_targets(x, out);
+            }
+        }
+        _ => {}
+    }
+}
+
+fn obs_targets(o: &Option<String>) -> Sx {
+    match o {
+        None => none(),
+        Some(s) if s.is_empty() => Sx::A(-3),
+        Some(s) => match serde_json::from_str::<serde_json::Value>(s) {
+            Ok(serde_json::Value::Object(m)) => {
+                let mut v = Vec::new();
+                if let Some(t) = m.get("target") {
+                    json_targets(t, &mut v);
+                }
+                l(v)
+            }
+            Ok(_) => l(vec![]),
+            Err(_) => Sx::A(-2),
+        },
+    }
+}
+
 fn obs_string(o: &Option<String>) -> Sx {
     match o {
         None => none(),
@@ -262,11 +305,14 @@ pub fn dump(store: &AnnotationStore) -> Sx {
     l(vec![l(res), l(sets), l(anns)])
 }
 
+/// the timestamp this call wrote as automatic "generated" value (the member of the annotation
+/// object if the output parses, else the first "generated": "..." in the text)
 fn find_generated(s: &str) -> Option<String> {
-    let pat = ", \"generated\": \"";
-    let i = s.find(pat)? + pat.len();
-    let j = s[i..].find('"')? + i;
-    Some(s[i..j].to_string())
+    if let Ok(serde_json::Value::Object(m)) = serde_json::from_str::<serde_json::Value>(s) {
+        return m.get("generated").and_then(|v| v.as_str()).map(|x| x.to_string());
+    }
+    let re = Regex::new("\"generated\"\\s*:\\s*\"([^\"]*)\"").ok()?;
+    re.captures(s).and_then(|c| c.get(1)).map(|m| m.as_str().to_string())
 }
 
 impl Ctx {
@@ -321,6 +367,7 @@ impl Ctx {
                 Some(v) => l(v),
                 None => none(),
             });
+            obs.push(obs_targets(&out));
         }
         (l(vec![view, cfgx.clone(), l(cases)]), obs, nontrivial)
     }
@@ -456,7 +503,7 @@ fn d(st: &str, k: &str, v: Sx) -> (String, String, Sx) {
 
 fn emit(out: &mut Out, ctx: &Ctx, req: Sx, key: &str) {
     let (i, o, nt) = ctx.exec(&req);
-    out.count_n(key, (o.len() / 4) as u64);
+    out.count_n(key, (o.len() / 5) as u64);
     out.case(&i, &o, nt, &req);
 }
 
@@ -577,9 +624,28 @@ pub fn generate(out: &mut Out, tier: &str, seed: u64) {
         let script = vec![res_op("r", 9), ann_op(Some("a"), tsel(0, 0, 3), data)];
         emit(out, &ctx, l(vec![l(script), cfgs[0].clone()]), "duplicate_names");
     }
+    // nested data key / data selectors at every position of a complex selector
+    for kind in 5..8i64 {
+        for pos in 0..3usize {
+            let mut subs = vec![tsel(0, 0, 1), tsel(0, 2, 5)];
+            subs.insert(pos, if kind == 6 { l(vec![a(9), a(0), a(0)]) } else { l(vec![a(8), a(0), s("k")]) });
+            let script = vec![
+                res_op("r", 9),
+                ann_op(Some("first"), tsel(0, 0, 3), vec![d("myset", "k", l(vec![a(3), a(1)]))]),
+                ann_op(Some("a"), l(vec![a(kind), l(subs)]), vec![d("myset", "k", l(vec![a(3), a(1)]))]),
+            ];
+            emit(out, &ctx, l(vec![l(script), cfgs[0].clone()]), "nested_unexportable");
+            let script2 = vec![
+                res_op("r", 9),
+                ann_op(Some("first"), tsel(0, 0, 3), vec![d("myset", "k", l(vec![a(3), a(1)]))]),
+                ann_op(Some("a"), l(vec![a(kind), l(vec![tsel(0, 0, 1), l(vec![a(8), a(0), s("k")])])]), vec![]),
+            ];
+            emit(out, &ctx, l(vec![l(script2), cfgs[6].clone()]), "nested_unexportable");
+        }
+    }
     // 5. seeded random stores: random ids, selector trees, data, removals, configurations
     let mut rng = Rng::new(seed);
-    let nrand = if thorough { 6000 } else { 400 };
+    let nrand = if thorough { 40000 } else { 400 };
     let bad = bad_config_pool();
     let nonfin = nonfinite_pool();
     for _ in 0..nrand {
@@ -595,9 +661,13 @@ pub fn generate(out: &mut Out, tier: &str, seed: u64) {
         for i in 0..nsets {
             script.push(set_op(sets[(rng.below(sets.len()) + i) % sets.len()]));
         }
+        // inputs that fall in a known class are kept apart as far as possible (a configuration that
+        // needs escaping only with otherwise clean annotations; a non-finite value only as the single
+        // data item of a plain text annotation), so that repairing one class is not masked by another
+        let badcfg = rng.chance(1, 12);
         let nann = 2 + rng.below(8);
         let mut made = 0usize;
-        for _ in 0..nann {
+        for ai in 0..nann {
             let leaf = |rng: &mut Rng, made: usize, lens: &Vec<usize>| -> Sx {
                 match rng.below(8) {
                     0 | 1 | 2 => {
@@ -610,13 +680,19 @@ pub fn generate(out: &mut Out, tier: &str, seed: u64) {
                     4 if made > 0 => l(vec![a(2), a(rng.below(made) as i64), a(0), a(rng.below(2) as i64)]),
                     5 => l(vec![a(3), a(rng.below(lens.len()) as i64)]),
                     6 => l(vec![a(4), a(0)]),
-                    7 if rng.chance(1, 6) => l(vec![a(8), a(0), s("k")]),
+                    7 if !badcfg && rng.chance(1, 6) => l(vec![a(8), a(0), s("k")]),
                     _ => {
                         let r = rng.below(lens.len());
                         tsel(r, 0, lens[r])
                     }
                 }
             };
+            if !badcfg && rng.chance(1, 15) {
+                let r = rng.below(lens.len());
+                script.push(ann_op(Some(*rng.pick(&ids)), tsel(r, 0, lens[r]), vec![d("myset", "nf", rng.pick(&nonfin).clone())]));
+                made += 1;
+                continue;
+            }
             let target = if rng.chance(1, 2) {
                 leaf(&mut rng, made, &lens)
             } else {
@@ -636,24 +712,29 @@ pub fn generate(out: &mut Out, tier: &str, seed: u64) {
             };
             let nd = rng.below(4);
             let mut data = Vec::new();
-            for _ in 0..nd {
-                let v = if rng.chance(1, 40) { rng.pick(&nonfin).clone() } else { rng.pick(&values).clone() };
+            for di in 0..nd {
+                let v = rng.pick(&values).clone();
                 let st = if rng.chance(1, 3) { ANNO_NS } else { *rng.pick(&sets) };
                 let k = if rng.chance(1, 4) { *rng.pick(&mains.to_vec()) } else { *rng.pick(&keys) };
-                data.push(d(st, k, v));
+                if badcfg {
+                    // distinct names
+                    data.push(d("myset", &format!("k{}_{}", ai, di), v));
+                } else {
+                    data.push(d(st, k, v));
+                }
             }
-            let idv = if rng.chance(1, 5) { None } else { Some(*rng.pick(&ids)) };
+            let idv = if !badcfg && rng.chance(1, 5) { None } else { Some(*rng.pick(&ids)) };
             script.push(ann_op(idv, target, data));
             made += 1;
             if made > 2 && rng.chance(1, 10) {
                 script.push(l(vec![a(3), a(rng.below(made) as i64)]));
             }
         }
-        let c = if rng.chance(1, 12) { rng.pick(&bad).clone() } else { rng.pick(&cfgs).clone() };
+        let c = if badcfg { rng.pick(&bad).clone() } else { rng.pick(&cfgs).clone() };
         emit(out, &ctx, l(vec![l(script), c]), "random_store");
     }
 }
 
-pub const RULE: &str = "Stores are built through the public API (add_resource, add_dataset, annotate with every selector kind incl. the internal ranged ones that annotate() produces, remove_annotation) and every live annotation is exported with to_webannotation() under a configuration. Exhaustive part: every value of a pool (null, booleans, ints incl. +-(2^62-1), floats on the grid of quarters, 30 strings with quotes, backslashes, all kinds of control characters, DEL/C1, non-BMP, IRIs and near-IRIs, datetimes, nested lists) x every one of 10 configurations (prefixes, extra contexts, namespaces, target templates, automatic generated/generator) under a plain key, a namespaced key, a key of the anno namespace and as main-level predicate; every subset of the five main-level predicates x body present/absent x 3 configurations, with and without annotation id; every identifier of a pool of 17 (quotes, backslashes, controls, non-BMP, IRIs, template variables) as resource, annotation, data set and key identifier in a store with all selector kinds x every configuration; every key of 14 x every set id of 9 x every configuration; the known classes (non-finite floats, configuration strings that need escaping, duplicate member names). Then seeded random stores (1-3 resources, 2-9 annotations with random selector trees up to depth 2, 0-3 data items, removals) under a random configuration. Per exported annotation 4 sub-cases: tree (serde_json on the real output vs intended tree), this development's recogniser vs serde_json on the real output, token-equality of the model's string with the real output, text targets of the view vs annotation.textselections(). Non-trivial: at least one export parsed as JSON. distinct = distinct model inputs.";
+pub const RULE: &str = "Stores are built through the public API (add_resource, add_dataset, annotate with every selector kind incl. the internal ranged ones that annotate() produces, remove_annotation) and every live annotation is exported with to_webannotation() under a configuration. Exhaustive part: every value of a pool (null, booleans, ints incl. +-(2^62-1), floats on the grid of quarters, 30 strings with quotes, backslashes, all kinds of control characters, DEL/C1, non-BMP, IRIs and near-IRIs, datetimes, nested lists) x every one of 10 configurations (prefixes, extra contexts, namespaces, target templates, automatic generated/generator) under a plain key, a namespaced key, a key of the anno namespace and as main-level predicate; every subset of the five main-level predicates x body present/absent x 3 configurations, with and without annotation id; every identifier of a pool of 17 (quotes, backslashes, controls, non-BMP, IRIs, template variables) as resource, annotation, data set and key identifier in a store with all selector kinds x every configuration; every key of 14 x every set id of 9 x every configuration; the known classes (non-finite floats, configuration strings that need escaping, duplicate member names). Then seeded random stores (1-3 resources, 2-9 annotations with random selector trees up to depth 2, 0-3 data items, removals) under a random configuration. Per exported annotation 5 sub-cases: tree (serde_json on the real output vs intended tree), this development's recogniser vs serde_json on the real output, token-equality of the model's string with the real output, text targets of the view vs annotation.textselections(), source/selector objects of the real output (serde_json) in order vs those text targets. Non-trivial: at least one export parsed as JSON. distinct = distinct model inputs.";
 
 pub const EXHAUSTIVE: bool = true;
